@@ -184,7 +184,9 @@ def _shape_enumerator(R, prog, mod, enum, pred):
         R.ok("DENSE-FALLBACK", "%s ranges over all k-subsets of 1..n" % enum, fi.key)
     ys = [x for x in ast.walk(fi.node) if isinstance(x, ast.Yield)]
     if not ys:
-        raise AnalysisError("%s is not a generator" % enum)
+        R.bad(F("DENSE-FALLBACK", fi, "%s shape" % enum, "the enumerator is expected to be a generator that yields each k-subset passing %s "
+                "(no `yield` statement found)" % pred))
+        return
     # every yield is guarded by the same predicate
     stmts = stmts_in(fi.node)
     for y in ys:
